@@ -310,7 +310,64 @@ def unit_bounded_nested_walk(U):
         fails.append({"case": "for p in parents('s', level=1): for gp in parents(p, level=1)", "expected": [["m1", "m2"], ["g1"]], "observed": [sorted(up1), sorted(up2)]})
     U.bounded_result("C02.bounded.nested_walk", "nested generator walks over children / parents == the Parent graph", "1 gene, 3 mRNAs, 7 exons (one shared)", cases, fails)
 
-UNITS = [("bounded.nested_walk", unit_bounded_nested_walk), ("bounded.after_abort", unit_bounded_after_abort), ("schema", unit_schema), ("query", unit_query)] + IM.c02_units() + [("parse.parents", unit_parse_parents), ("bounded.text", unit_bounded_text)]
+def unit_bounded_split_histories(U):
+    """Bounded: the Parent graph of a database filled in SEVERAL steps (create_db, then one or two update() calls) is the Parent
+    graph of everything stored so far - whichever step brings the parents, the middle features or the leaves (a chain of four
+    ranks and a two-parent diamond; every assignment of the features to the steps; file / memory)"""
+    import itertools as _it, tempfile, os, shutil
+    fails, cases = [], 0
+    mk = lambda i, t, par=None: F.Feature(seqid="c", source="s", featuretype=t, start=1, end=9, strand="+", attributes=dict({"ID": [i]}, **({"Parent": par} if par else {})))
+    graphs = {"chain": [mk("g", "gene"), mk("m", "mRNA", ["g"]), mk("e", "exon", ["m"]), mk("c", "part", ["e"])],
+              "diamond": [mk("g", "gene"), mk("m1", "mRNA", ["g"]), mk("m2", "mRNA", ["g"]), mk("e", "exon", ["m1", "m2"])]}
+    d = tempfile.mkdtemp()
+    try:
+        for gname, feats in sorted(graphs.items()):
+            n = len(feats)
+            for steps in (2, 3):
+                assigns = [a for a in _it.product(range(steps), repeat=n) if set(a) == set(range(steps))]
+                if not U.thorough:
+                    assigns = assigns[::2] + [assigns[-1]]
+                for a in assigns:
+                    for target in ((":memory:", "file") if U.thorough else (":memory:",)):
+                        cases += 1
+                        dbfn = ":memory:" if target == ":memory:" else os.path.join(d, "h%d.db" % cases)
+                        stored = []
+                        try:
+                            db = None
+                            for st in range(steps):
+                                part = [feats[i] for i in range(n) if a[i] == st]
+                                stored += part
+                                if db is None:
+                                    db = gffutils.create_db([IM._copyf(f) for f in part], dbfn)
+                                else:
+                                    db.update([IM._copyf(f) for f in part], make_backup=False)
+                                rel = {(r["parent"], r["child"], r["level"]) for r in db.execute("SELECT parent, child, level FROM relations")}
+                                exp = IM.expected_gff3_relations(stored)
+                                bad = None
+                                if rel != exp:
+                                    bad = "relations %r" % sorted(rel)
+                                else:
+                                    ids = {f.attributes["ID"][0] for f in stored}
+                                    for x in sorted(ids):
+                                        for lv in (1, 2, None):
+                                            ch = sorted(f.id for f in db.children(x, level=lv))
+                                            ech = sorted({c for (p_, c, l) in exp if p_ == x and (lv is None or l == lv) and c in ids})
+                                            pa = sorted(f.id for f in db.parents(x, level=lv))
+                                            epa = sorted({p_ for (p_, c, l) in exp if c == x and (lv is None or l == lv) and p_ in ids})
+                                            if ch != ech or pa != epa:
+                                                bad = "children / parents (%s, level=%r) = %r / %r, expected %r / %r" % (x, lv, ch, pa, ech, epa)
+                                if bad:
+                                    fails.append({"case": {"graph": gname, "step of each feature": dict(zip([f.attributes["ID"][0] for f in feats], a)), "after step": st, "target": target},
+                                                  "expected": sorted(exp), "observed": bad})
+                                    break
+                        except Exception as e:
+                            fails.append({"case": {"graph": gname, "steps": list(a), "target": target}, "expected": "no exception", "observed": repr(e)})
+    finally:
+        shutil.rmtree(d, ignore_errors=True)
+    U.bounded_result("C02.bounded.split_histories", "the Parent graph after every step of create_db + update()s is that of the features stored so far",
+                     "4-rank chain and 2-parent diamond x every assignment of the features to 2 / 3 steps x memory / file", cases, fails)
+
+UNITS = [("bounded.split_histories", unit_bounded_split_histories), ("bounded.nested_walk", unit_bounded_nested_walk), ("bounded.after_abort", unit_bounded_after_abort), ("schema", unit_schema), ("query", unit_query)] + IM.c02_units() + [("parse.parents", unit_parse_parents), ("bounded.text", unit_bounded_text)]
 
 
 def replay_file(doc):
